@@ -162,17 +162,56 @@ class Types:
         from .consteval import ConstEval, ClassRef, NotConst
         if not hasattr(self, '_ce'):
             self._ce = ConstEval(self.prog)
-        try:
-            val = self._ce.eval(expr, fi.module, fi.cls, {})
-        except (NotConst, Exception):
-            return None
-        if not isinstance(val, (list, tuple)) or not val or not all(isinstance(r, (list, tuple)) and len(r) == width for r in val):
-            return None
+        vals = self._param_constants(expr, fi) if isinstance(expr, ast.Name) and expr.id in fi.all_params else None
+        if vals is None:
+            try:
+                vals = [self._ce.eval(expr, fi.module, fi.cls, {})]
+            except (NotConst, Exception):
+                return None
+        rows = []
+        for val in vals:
+            if not isinstance(val, (list, tuple)) or not val or not all(isinstance(r, (list, tuple)) and len(r) == width for r in val):
+                return None
+            rows.extend(val)
         out = []
         for i in range(width):
-            col = [r[i] for r in val]
+            col = [r[i] for r in rows]
             out.append([v.ci for v in col] if all(isinstance(v, ClassRef) and v.ci is not None for v in col) else None)
         return out
+
+    def _param_constants(self, name_node, fi: FuncInfo):
+        """The constant values every call site of `fi` passes for the parameter (evaluated by the constant evaluator); None when a
+        call site passes something that is not a constant, or when there is no call site."""
+        from .consteval import ConstEval, NotConst
+        if not hasattr(self, '_ce'):
+            self._ce = ConstEval(self.prog)
+        idx = fi.all_params.index(name_node.id)
+        bound = fi.cls is not None and fi.kind in ('method', 'classmethod', 'property', 'setter')
+        found = []
+        for g in self.prog.all_functions():
+            if g.module.generated or isinstance(g.node, ast.Lambda):
+                continue
+            for c in walk_local(g.node):
+                if not isinstance(c, ast.Call):
+                    continue
+                nm = c.func.id if isinstance(c.func, ast.Name) else c.func.attr if isinstance(c.func, ast.Attribute) else None
+                if nm != fi.name:
+                    continue
+                if isinstance(c.func, ast.Name):
+                    r = self.prog.resolve_expr(g.module, c.func, None)
+                    if not (r and r[0] == 'def' and r[1] is fi):
+                        continue
+                pos = idx - (1 if bound else 0)
+                arg = next((k.value for k in c.keywords if k.arg == name_node.id), None)
+                if arg is None and 0 <= pos < len(c.args) and not any(isinstance(a_, ast.Starred) for a_ in c.args):
+                    arg = c.args[pos]
+                if arg is None:
+                    return None
+                try:
+                    found.append(self._ce.eval(arg, g.module, g.cls, {}))
+                except (NotConst, Exception):
+                    return None
+        return found or None
 
     def _class_table(self, expr, fi: FuncInfo, _depth=0):
         """The classes a constant registry holds (dict values / list or tuple members), when `expr` is such a constant or a parameter
